@@ -1,9 +1,10 @@
 """C08 — ciphers invert exactly; AES is standard with a fresh IV; bad input is rejected."""
 import base64
+import copy
 import json
 import os
 
-from core import Result, guard
+from core import Result, guard, stable
 from protocol import enc_tree, dec_tree, canon_tree, enc_str, dec_str
 
 RULE = ("stream cipher: random 32-byte keys x plaintext lengths 0..80, 255, 256, 1000 (incl. non-UTF-8) x methods aes/xor/best "
@@ -376,11 +377,147 @@ def stream_stored(ctx, res, n):
                         res.disagree("C08.secure.to_python", case, impl=want, model=got)
 
 
+def field_sessions_stream(ctx, res):
+    """the ciphers behind the field and the configuration: (a) two configurations of ONE schema with different key files, and one
+    configuration whose key file is replaced: every stored value opens with the key of the configuration that stored it and with no
+    other, and two AES values of one plaintext differ (fresh IV), whichever configuration or save produced them; (b) a session the
+    application holds open stays usable after a value was (rightly) rejected in a nested session of the same key file; (c) stored
+    secrets of nested configurations — a section, a config-type field, list items — that arrive as a map (document load, assignment of
+    a map) are opened with the key file of the tree they are loaded into, and no other key file is touched"""
+    import cincoconfig as cc
+    from cincoconfig.encryption import KeyFile, SecureValue
+    tmp = ctx.tmpdir()
+    home = os.environ.get("HOME", "")
+    n = [0]
+
+    def newkey():
+        n[0] += 1
+        p = os.path.join(tmp, "fs%d.key" % n[0])
+        with open(p, "wb") as fp:
+            fp.write(os.urandom(32))
+        return p
+
+    def opens(keypath, stored):
+        try:
+            with KeyFile(keypath) as kf:
+                return kf.decrypt(SecureValue(stored["method"], base64.b64decode(stored["ciphertext"])))
+        except Exception as e:  # noqa
+            return "raised %s" % type(e).__name__
+
+    for method in ("aes", "xor", "best"):
+        # (a)
+        s = cc.Schema()
+        s.secret = cc.SecureField(method=method)
+        s.sub.secret = cc.SecureField(method=method)
+        ka, kb = newkey(), newkey()
+        a, b = s(key_filename=ka), s(key_filename=kb)
+        for plain in ("same-plaintext", "p" * 16, "\u0436" * 8):
+            for c in (a, b):
+                c.secret = plain
+                c.sub.secret = plain
+            ta1, tb1, ta2, tb2 = a.to_tree(), b.to_tree(), a.to_tree(), b.to_tree()
+            case = {"stream": "field-sessions", "what": "two-configurations-one-schema", "method": method, "plaintext": plain}
+            res.case(stable(case), kind="field-sessions:two-configurations")
+            for label, tree, own, other in (("A", ta1, ka, kb), ("B", tb1, kb, ka), ("A again", ta2, ka, kb), ("B again", tb2, kb, ka)):
+                for st in (tree["secret"], tree["sub"]["secret"]):
+                    if opens(own, st) != plain.encode():
+                        res.violate("C08:field:not-under-own-key", "a stored secret does not decrypt with the key of the configuration that stored it",
+                                    dict(case, configuration=label, got=repr(opens(own, st))[:80]))
+                    elif opens(other, st) == plain.encode():
+                        res.violate("C08:field:other-key-yields-plaintext", "a stored secret decrypts with another configuration's key", dict(case, configuration=label))
+            aes_values = [t[k]["ciphertext"] if k == "secret" else t["sub"]["secret"]["ciphertext"] for t in (ta1, tb1, ta2, tb2) for k in ("secret", "sub")
+                          if (t[k] if k == "secret" else t["sub"]["secret"])["method"] == "aes"]
+            if len(set(aes_values)) != len(aes_values):
+                res.violate("C08:field:iv-reused", "two AES values of one plaintext are equal (the IV is not fresh for every encryption)", dict(case, distinct=len(set(aes_values)), total=len(aes_values)))
+            # the key file of A replaced by another valid key: what A stores from now on opens with the new key only
+            old = open(ka, "rb").read()
+            with open(ka, "wb") as fp:
+                fp.write(os.urandom(32))
+            ta3 = a.to_tree()
+            res.case(None, kind="field-sessions:key-replaced")
+            got = opens(ka, ta3["secret"])
+            if got != plain.encode():
+                res.violate("C08:field:not-under-own-key", "after the key file was replaced, a stored secret does not decrypt with the key now in the file", dict(case, got=repr(got)[:80]))
+        # (b)
+        kp = newkey()
+        cfg = s(key_filename=kp)
+        cfg.secret = "outer"
+        fld = s._fields["secret"]
+        bad_values = [{"method": "rot13", "ciphertext": "AAAA"}, {"method": "aes", "ciphertext": "AAAA"}, {"method": "xor", "ciphertext": "!!"}, {"method": "aes"}, 5]
+        for bad in bad_values:
+            case = {"stream": "field-sessions", "what": "outer-session-after-nested-rejection", "method": method, "rejected": repr(bad)}
+            res.case(stable(case), kind="field-sessions:nested-rejection")
+            try:
+                with cfg._keyfile as outer:
+                    before = outer.encrypt("x", method=method)
+                    try:
+                        fld.to_python(cfg, bad)
+                        rejected = False
+                    except Exception:  # noqa
+                        rejected = True
+                    try:
+                        with cfg._keyfile:
+                            raise KeyError("the application's own error inside a nested session")
+                    except KeyError:
+                        pass
+                    after = outer.decrypt(before)
+                    again = outer.decrypt(outer.encrypt("y", method=method))
+                if after != b"x" or again != b"y":
+                    res.violate("C08:field:outer-session-broken", "a session that is still open does not invert its own values after a nested session was left by an exception", case)
+            except Exception as e:  # noqa
+                res.violate("C08:field:outer-session-broken", "a session that is still open refused to work after a nested session was left by an exception: %s" % type(e).__name__,
+                            dict(case, error=str(e)[:120]))
+        # (c)
+        cred = cc.Schema()
+        cred.user = cc.StringField(default="u")
+        cred.password = cc.SecureField(method=method)
+        Cred = cc.make_type(cred, "FsCred%d" % n[0])
+        t = cc.Schema()
+        t.cred = Cred
+        t.section.password = cc.SecureField(method=method)
+        t.section.deeper.password = cc.SecureField(method=method)
+        t.creds = cc.ListField(Cred, default=lambda: [])
+        kp = newkey()
+        src = t(key_filename=kp)
+        src.cred = Cred(user="a", password="ct-secret")
+        src.section.password = "sec-secret"
+        src.section.deeper.password = "deep-secret"
+        src.creds = [Cred(user="b", password="item-secret")]
+        tree = src.to_tree()
+        default_key = os.path.join(home, ".cincokey")
+        for route in ("load_tree", "loads-json", "loads-xml", "assign-maps", "ctor-keywords"):
+            existed = os.path.exists(default_key)
+            stamp = open(default_key, "rb").read() if existed else None
+            case = {"stream": "field-sessions", "what": "nested-stored-secrets", "method": method, "route": route}
+            res.case(stable(case), kind="field-sessions:nested-stored")
+            try:
+                dst = t(key_filename=kp)
+                if route == "load_tree":
+                    dst.load_tree(copy.deepcopy(tree))
+                elif route.startswith("loads-"):
+                    dst.loads(src.dumps(format=route[6:]), format=route[6:])
+                elif route == "assign-maps":
+                    dst.cred = copy.deepcopy(tree["cred"])
+                    dst.section = copy.deepcopy(tree["section"])
+                    dst.creds = copy.deepcopy(tree["creds"])
+                else:
+                    dst = t(key_filename=kp, cred=copy.deepcopy(tree["cred"]), section=copy.deepcopy(tree["section"]), creds=copy.deepcopy(tree["creds"]))
+                got = [dst.cred.password, dst.section.password, dst.section.deeper.password, [c.password for c in dst.creds]]
+            except Exception as e:  # noqa
+                got = "raised %s: %s" % (type(e).__name__, str(e)[:100])
+            if got != ["ct-secret", "sec-secret", "deep-secret", ["item-secret"]]:
+                res.violate("C08:field:nested-stored-not-opened", "stored secrets of nested configurations handed over as maps are not opened with the key file of the tree", dict(case, got=got))
+            now = open(default_key, "rb").read() if os.path.exists(default_key) else None
+            if now != stamp:
+                res.violate("C08:field:other-key-file-touched", "the default key file was created / changed although every configuration names its own key file", case)
+
+
 def run(ctx):
     res = Result()
     guard(res, "C08", stream_cipher, ctx, res, ctx.n(4, 40))
     guard(res, "C08", stream_b64, ctx, res, ctx.n(1500, 60000))
     guard(res, "C08", stream_stored, ctx, res, ctx.n(20, 400))
+    guard(res, "C08", field_sessions_stream, ctx, res)
     return res
 
 
